@@ -24,8 +24,15 @@ def build(frames, binds):
     in frame i.  Returns (text, expected marker | None | 'SKIP')."""
     head = []
     tail = []
+    sources = []
     for i, (kind, b) in enumerate(zip(frames, binds)):
-        bind = f"n = {b}; " if b is not None else ""
+        if isinstance(b, tuple):
+            # the name is brought into this frame by `inherit (sI) n;` from a set bound in an extra outermost let
+            sources.append(f"s{i} = {{ n = {b[1]}; }};")
+            bind = f"inherit (s{i}) n; "
+            b = b[1]
+        else:
+            bind = f"n = {b}; " if b is not None else ""
         other = f"o{i} = 0; "
         if kind == "let":
             head.append(f"let {bind}{other}in")
@@ -44,6 +51,9 @@ def build(frames, binds):
             head.append(f"{pre}{{ {bind}{other}inner =")
             tail.insert(0, "; }")
     text = " ".join(head) + " { x = n; } " + " ".join(tail) + "\n"
+    if sources:
+        text = "let " + " ".join(sources) + " in " + text
+    binds = [b[1] if isinstance(b, tuple) else b for b in binds]
     # expected by Nix scoping
     lexical = [(i, b) for i, (k, b) in enumerate(zip(frames, binds)) if b is not None and k in ("let", "rec", "lambda")]
     withs = [(i, b) for i, (k, b) in enumerate(zip(frames, binds)) if b is not None and k == "with"]
@@ -113,6 +123,13 @@ def cases(tier):
             for mask in itertools.product([False, True], repeat=d):
                 binds = [f'"M{i}"' if m else None for i, m in enumerate(mask)]
                 yield (list(frames), binds)
+            # the same with `inherit (src) n;` as the binding form in let / rec frames (at least one such frame)
+            if d <= 3:
+                for mask in itertools.product([0, 1, 2], repeat=d):
+                    if 2 not in mask or any(m == 2 and frames[i] not in ("let", "rec") for i, m in enumerate(mask)):
+                        continue
+                    binds = [None if m == 0 else f'"M{i}"' if m == 1 else ("inh", f'"M{i}"') for i, m in enumerate(mask)]
+                    yield (list(frames), binds)
 
 
 EXTRA = [
@@ -209,7 +226,7 @@ def _unused():
 
 
 def shape_sig(frames, binds):
-    return " > ".join(f"{k}{'*' if b else ''}" for k, b in zip(frames, binds))
+    return " > ".join(f"{k}{'' if not b else '*inherit' if isinstance(b, (tuple, list)) else '*'}" for k, b in zip(frames, binds))
 
 
 def run(tier, seed):
